@@ -9,6 +9,9 @@ from harness import core, tlc
 
 
 def main(argv):
+    import warnings
+    warnings.simplefilter("ignore")
+    os.environ.setdefault("PYTHONWARNINGS", "ignore")
     if len(argv) < 2:
         print(__doc__)
         return 2
